@@ -270,6 +270,10 @@ def run_cases(exe, cases, fixed_args=(), jobs=None, timeout=3600, tag='x'):
             os.unlink(cf_)
             if got >= len(idxs) - pos:
                 break
+            if got > 0 and (res[idxs[pos + got - 1]] or '').startswith('TIMEOUT'):
+                # the watchdog answered for the case it killed the worker in; nobody else is to blame
+                pos += got
+                continue
             # died on case idxs[pos+got]
             bad = idxs[pos + got]
             res[bad] = 'DIED rc=%d %s' % (p.returncode, json.dumps(p.stderr.decode('latin-1')[-3000:]))
